@@ -1,6 +1,7 @@
 package rules
 
 import (
+	"os"
 	"go/token"
 	"go/types"
 	"sort"
@@ -678,4 +679,283 @@ func sideByType(fn *ssa.Function, ct map[*types.Named]bool) bool {
 		}
 	}
 	return false
+}
+
+// loopVarCaptures finds goroutines started inside a loop whose closure captures that loop's iteration variable
+// by reference. With the module's language version below go1.22 one variable is shared by all iterations: every
+// goroutine reads whatever the loop has assigned by the time it runs (and races with the assignment). go/ssa applies
+// the per-version semantics, so under go >= 1.22 the variable is allocated per iteration and nothing is reported.
+type loopCapture struct {
+	fn   *ssa.Function
+	goAt *ssa.Go
+	v    *ssa.Alloc
+}
+
+func loopVarCaptures(c *Ctx, fns []*ssa.Function) (captures []loopCapture, goInLoops int) {
+	for _, fn := range fns {
+		ir.EachInstr(fn, func(_ *ssa.BasicBlock, _ int, in ssa.Instruction) {
+			g, ok := in.(*ssa.Go)
+			if !ok || !flow.InCycle(g.Block()) {
+				return
+			}
+			goInLoops++
+			mc, ok := g.Call.Value.(*ssa.MakeClosure)
+			if !ok {
+				return
+			}
+			for _, b := range mc.Bindings {
+				al, ok := b.(*ssa.Alloc)
+				if !ok || flow.InCycle(al.Block()) && sameLoop(al.Block(), g.Block()) {
+					continue
+				}
+				// assigned per iteration from the sequence being iterated?
+				iter := false
+				for _, r := range *al.Referrers() {
+					st, ok := r.(*ssa.Store)
+					if !ok || st.Addr != ssa.Value(al) || !flow.InCycle(st.Block()) {
+						continue
+					}
+					if iterationValue(st.Val, 0) {
+						iter = true
+					}
+				}
+				if iter {
+					captures = append(captures, loopCapture{fn, g, al})
+				}
+			}
+		})
+	}
+	return
+}
+
+// sameLoop: a and b lie on a common cycle.
+func sameLoop(a, b *ssa.BasicBlock) bool {
+	if a == b {
+		return true
+	}
+	reach := func(from, to *ssa.BasicBlock) bool {
+		seen := map[*ssa.BasicBlock]bool{}
+		stack := []*ssa.BasicBlock{from}
+		for len(stack) > 0 {
+			x := stack[len(stack)-1]
+			stack = stack[:len(stack)-1]
+			for _, s := range x.Succs {
+				if s == to {
+					return true
+				}
+				if !seen[s] {
+					seen[s] = true
+					stack = append(stack, s)
+				}
+			}
+		}
+		return false
+	}
+	return reach(a, b) && reach(b, a)
+}
+
+// iterationValue: v is the element/key/index the enclosing loop produces for this iteration (an element loaded through
+// the loop's index, a value extracted from a range iterator, or the induction variable itself).
+func iterationValue(v ssa.Value, d int) bool {
+	if d > 4 {
+		return false
+	}
+	switch x := v.(type) {
+	case *ssa.Extract:
+		_, isNext := x.Tuple.(*ssa.Next)
+		return isNext
+	case *ssa.UnOp:
+		if ia, ok := x.X.(*ssa.IndexAddr); ok {
+			_, isPhi := ia.Index.(*ssa.Phi)
+			return isPhi || iterationValue(ia.Index, d+1)
+		}
+	case *ssa.Index:
+		_, isPhi := x.Index.(*ssa.Phi)
+		return isPhi
+	case *ssa.Lookup:
+		return iterationValue(x.Index, d+1)
+	case *ssa.Phi:
+		return flow.InCycle(x.Block())
+	case *ssa.BinOp:
+		return iterationValue(x.X, d+1)
+	case *ssa.ChangeType:
+		return iterationValue(x.X, d+1)
+	case *ssa.Convert:
+		return iterationValue(x.X, d+1)
+	}
+	return false
+}
+
+// ---- nested acquisition through callees -------------------------------------------------------
+
+// mayAcquire is one lock a function may take, itself or through the functions it calls synchronously. param is the
+// index of the function's parameter (receiver = 0) whose object holds the mutex, or -1 when it is some other object.
+type mayAcquire struct {
+	key   string
+	write bool
+	param int
+	at    ssa.Instruction // the acquiring call (in the function itself or, for inherited entries, the call that leads to it)
+}
+
+func rootParam(fn *ssa.Function, v ssa.Value) int {
+	for d := 0; d < 8 && v != nil; d++ {
+		switch x := v.(type) {
+		case *ssa.FieldAddr:
+			v = x.X
+		case *ssa.UnOp:
+			v = x.X
+		case *ssa.Parameter:
+			for i, p := range fn.Params {
+				if p == x {
+					return i
+				}
+			}
+			return -1
+		case *ssa.Alloc:
+			// a parameter spilled to a cell because a closure captures it
+			var stored ssa.Value
+			n := 0
+			for _, r := range *x.Referrers() {
+				if st, ok := r.(*ssa.Store); ok && st.Addr == ssa.Value(x) {
+					stored = st.Val
+					n++
+				}
+			}
+			if n != 1 {
+				return -1
+			}
+			v = stored
+		default:
+			return -1
+		}
+	}
+	return -1
+}
+
+// acquireSummaries computes, for every library function, the locks it may acquire (fixpoint over static callees;
+// `go` statements start a new goroutine and are not followed).
+func acquireSummaries(c *Ctx) map[*ssa.Function][]mayAcquire {
+	ls := c.Locks()
+	sum := map[*ssa.Function][]mayAcquire{}
+	has := func(list []mayAcquire, m mayAcquire) bool {
+		for _, x := range list {
+			if x.key == m.key && x.write == m.write && x.param == m.param {
+				return true
+			}
+		}
+		return false
+	}
+	for _, fn := range c.P.LibFns {
+		ir.EachInstr(fn, func(_ *ssa.BasicBlock, _ int, in ssa.Instruction) {
+			op, ok := ls.Classify(in)
+			if !ok || !op.Acquire {
+				return
+			}
+			m := mayAcquire{op.Key, op.Write, rootParam(fn, in.(*ssa.Call).Call.Args[0]), in}
+			if !has(sum[fn], m) {
+				sum[fn] = append(sum[fn], m)
+			}
+		})
+	}
+	for iter := 0; iter < 8; iter++ {
+		changed := false
+		for _, fn := range c.P.LibFns {
+			ir.EachInstr(fn, func(_ *ssa.BasicBlock, _ int, in ssa.Instruction) {
+				call, ok := in.(*ssa.Call)
+				if !ok {
+					return
+				}
+				sc := ir.StaticCallee(call)
+				if sc == nil || !c.P.IsLib(sc) || sc == fn {
+					return
+				}
+				for _, m := range sum[sc] {
+					p := -1
+					if m.param >= 0 && m.param < len(call.Call.Args) {
+						p = rootParam(fn, call.Call.Args[m.param])
+					}
+					nm := mayAcquire{m.key, m.write, p, in}
+					if !has(sum[fn], nm) {
+						sum[fn] = append(sum[fn], nm)
+						changed = true
+					}
+				}
+			})
+		}
+		if !changed {
+			break
+		}
+	}
+	return sum
+}
+
+type reentry struct {
+	fn     *ssa.Function
+	call   *ssa.Call
+	callee *ssa.Function
+	key    string
+}
+
+// nestedThroughCallees returns (a) the lock-order edges that arise because a callee takes a lock while the caller
+// holds one, and (b) the self-deadlocks: a callee that takes the very mutex the caller holds — same key, same object
+// (the callee locks a field of the parameter that receives the object whose field the caller locked) — unless both
+// acquisitions are shared (RLock).
+func nestedThroughCallees(c *Ctx, fns []*ssa.Function) ([]lockEdge, []reentry) {
+	ls := c.Locks()
+	sum := acquireSummaries(c)
+	var edges []lockEdge
+	var re []reentry
+	for _, fn := range fns {
+		ir.EachInstr(fn, func(_ *ssa.BasicBlock, _ int, in ssa.Instruction) {
+			call, ok := in.(*ssa.Call)
+			if !ok {
+				return
+			}
+			sc := ir.StaticCallee(call)
+			if sc == nil || !c.P.IsLib(sc) {
+				return
+			}
+			held := ls.At(in)
+			if os.Getenv("LOCK_DEBUG") != "" && strings.Contains(sc.Name(), "cleanupSession") {
+				println("DBG call", fname(fn), fname(sc), len(held), len(sum[sc]))
+				for h, hs := range held {
+					println("   held", h, hs.Write, hs.Site != nil)
+				}
+				for _, m := range sum[sc] {
+					println("   may", m.key, m.write, m.param)
+				}
+			}
+			if len(held) == 0 {
+				return
+			}
+			for _, m := range sum[sc] {
+				for h, hs := range held {
+					if strings.HasPrefix(h, "path:") {
+						continue
+					}
+					if h != m.key {
+						edges = append(edges, lockEdge{h, m.key, in})
+						continue
+					}
+					if !hs.Write && !m.write {
+						continue
+					}
+					// same key: the same object?
+					if hs.Site == nil || m.param < 0 || m.param >= len(call.Call.Args) {
+						continue
+					}
+					hc, ok := hs.Site.(*ssa.Call)
+					if !ok || len(hc.Call.Args) == 0 {
+						continue
+					}
+					hp := rootParam(fn, hc.Call.Args[0])
+					ap := rootParam(fn, call.Call.Args[m.param])
+					if hp >= 0 && hp == ap {
+						re = append(re, reentry{fn, call, sc, h})
+					}
+				}
+			}
+		})
+	}
+	return edges, re
 }
